@@ -250,6 +250,17 @@ class Desugar:
         if spec is None or len(n.get("args", [])) != 1:
             return n
         clo = peel(n["args"][0])
+        if kind(clo) == "Path" and clo.get("res") == "local" and clo["id"] in getattr(self, "closure_lets", {}):
+            # `let rewind = |mut s: Box<Self>| { .. }; result.map(rewind).map_err(rewind)`: the closure kept in a local
+            clo = copy.deepcopy(self.closure_lets[clo["id"]])
+        elif kind(clo) == "Path" and clo.get("res") == "def" and clo.get("dk") in ("Fn", "AssocFn"):
+            # `.map(Self::checkpoint_ok)`: a function value is the closure `|v| f(v)`
+            vid = self.fresh()
+            sp0 = n.get("sp")
+            clo = {"k": "Closure", "sp": sp0,
+                   "params": [{"k": "PBind", "id": vid, "name": "v", "mode": "BindingMode(No, Not)", "sp": sp0}],
+                   "body": {"k": "Call", "f": clo, "sp": sp0, "ty": None,
+                            "args": [{"k": "Path", "res": "local", "id": vid, "name": "v", "last": "v", "sp": sp0}]}}
         if kind(clo) != "Closure" or len(clo.get("params", [])) != 1:
             return n
         taken, other, mode = spec
@@ -291,6 +302,12 @@ class Desugar:
                 "ty": n.get("ty"), "sp": sp, "exp": n.get("exp"), "desugared": p}
 
     def run(self, root):
+        self.closure_lets = {}
+        for x in walk(root):
+            if x.get("k") == "Let" and x.get("init") is not None and x["pat"].get("k") == "PBind" \
+                    and kind(peel(x["init"])) == "Closure":
+                self.closure_lets[x["pat"]["id"]] = peel(x["init"])
+
         def rec(x):
             if isinstance(x, dict):
                 for k2, v in list(x.items()):
